@@ -298,6 +298,8 @@ def handleCall (inp impl : Json) : R OpResult := do
     if call == "finalisingTrafficRouting" then
       holds := holds ++ [("C04.x_finalising_order", finalisingOrderX c clean io),
                          ("C05.x_finalising_order", finalisingOrderX c clean io),
+                         ("C04.x_grace_separates", graceSeparatesX c io),
+                         ("C05.x_grace_separates", graceSeparatesX c io),
                          ("C07.x_fixed_point", fixedPointX (prevDone && b.w.isNone && !b.armed && !gSame) same m io),
                          ("C07.x_converges", convergesX streak 9 io)]
     if call == "finalisingTrafficRouting" || call == "restoreGateway" then
@@ -323,6 +325,14 @@ def handleCall (inp impl : Json) : R OpResult := do
             holds := holds ++ (rs.filter fun kv => !(gSame && kv.1 == "C13.x_restored")) ++
               [("C05.x_finalise_restores", rs.all (·.2))]
         | none => pure ()
+    -- a read fault inside the provider's Finalise (not the stable Service `Get`, which is the first one of
+    -- `FinalisingTrafficRouting`), no write fault: at most the member that hit it is left unclean
+    let inProvider := call == "restoreGateway" ||
+      (call == "finalisingTrafficRouting" && (match b.r with | some k => decide (k ≥ 2) | none => false))
+    if inProvider && iReadFailed && b.w.isNone && c.hasRef && P.isSome then
+      tags := tags ++ ["finalise:read-fault-in-provider"]
+      holds := holds ++ [("C05.x_finalise_continues", finaliseContinuesB pj g'),
+                         ("C06.x_finalise_continues", finaliseContinuesB pj g')]
     if ["restoreStableService", "restoreGateway", "removeCanaryService", "patchStableService"].contains call then
       holds := holds ++ [("C05.x_task_post", taskPostX call c clean io)]
     return { model := model, holds := RV.Drv.Custom.mergeHolds holds, tags := tags.eraseDups }
